@@ -30,6 +30,10 @@ def gen_cases(tier, seed):
     for i, _ in enumerate(table_ids()):
         for v in range(0, 256):
             yield Case(2001, [i, v, 1], [], 'subfunction name after the other tables')
+    # a table derived from a library table (the usual way to add manufacturer values) names the inherited values as its parent does
+    for i, _ in enumerate(table_ids()):
+        for v in range(0, 256):
+            yield Case(2001, [i, v, 3], [], 'subfunction name in a derived table')
     for v in range(0, 256):
         yield Case(2002, [0, v, 1], [], 'nrc name after other lookups')
         yield Case(2005, [0, v, 1], [], 'dtc format name after other lookups')
@@ -51,6 +55,15 @@ def worker_init():
     _tables = [getattr(getattr(services, o), c) for o, c in table_ids()]
 
 
+_derived = {}
+
+
+def derived(t):
+    if t not in _derived:
+        _derived[t] = type(t.__name__, (t,), {})      # class OemTable(LibraryTable): pass
+    return _derived[t]
+
+
 def m_ostr(f):
     try:
         return [0] + enc_opt(enc_str, f())
@@ -62,6 +75,8 @@ def impl(c):
     from udsoncan import DataIdentifier, Routine, Dtc
     from udsoncan.ResponseCode import ResponseCode
     i, v = c.ints[:2]
+    if len(c.ints) > 2 and c.ints[2] == 3:
+        return enc_str(derived(_tables[i]).get_name(v))
     if len(c.ints) > 2:
         for t in _tables:
             t.get_name(v)
@@ -115,8 +130,9 @@ def oracle(c, r):
         if not (0 <= v <= 255):
             return None
         cls = _tables[i]
+        look = derived(cls) if len(c.ints) > 2 and c.ints[2] == 3 else cls
         try:
-            n = cls.get_name(v)
+            n = look.get_name(v)
         except Exception as e:
             return ('subfn-raises', '%s.get_name(%d) raised %s' % (cls.__qualname__, v, type(e).__name__))
         ints, ranges = members(cls)
